@@ -789,21 +789,28 @@ def sub_batch(rng, full):
 def gen_lin_case(seed, quick):
     rng = random.Random(seed)
     kind = rng.choice(["lti", "lti", "ltvi", "ltvp"])
-    n, m, p = rng.choice([1, 1, 2, 3, 4]), rng.choice([1, 2, 3]), rng.choice([1, 2, 3, 4])
-    T = 1 if kind == "lti" else rng.randint(1, 4)
+    n, m, p = rng.choice([1, 1, 2, 3, 4, 6]), rng.choice([1, 2, 3, 4]), rng.choice([1, 2, 3, 4, 5])
+    T = 1 if kind == "lti" else rng.choice([1, 2, 3, 4, 6])
     full = rng.choice(BATCHES)
     dtype = rng.choice(["float64", "float64", "float32"])
     case = {"kind": "lin", "sys": kind, "seed": seed, "n": n, "m": m, "p": p, "T": T, "full": full, "dtype": dtype,
             "bA": sub_batch(rng, full), "bB": sub_batch(rng, full), "bC": sub_batch(rng, full), "bD": sub_batch(rng, full),
             "c1": rng.random() < 0.65, "c2": rng.random() < 0.5, "bc1": sub_batch(rng, full), "bc2": sub_batch(rng, full),
-            "scalar": (n == 1 and m == 1 and rng.random() < 0.5), "scale": rng.choice([1.0, 1.0, 1e-3, 1e3]),
+            "scalar": (n == 1 and m == 1 and rng.random() < 0.5),
+            # magnitudes far outside "randn": the property says all A, B, C, D, c and states
+            "scale": rng.choice([1.0, 1.0, 1e-3, 1e3] + ([1e-12, 1e8, 1e-30] if dtype == "float64" else [1e-6, 1e5])),
+            # one batch may mix regimes: zero / tiny / ordinary / large items side by side
+            "regimes": rng.random() < 0.35,
+            # memory layout of every tensor: contiguous, transposed storage, slice of a larger buffer, expanded (stride 0)
+            "layout": {k_: rng.choice(["c", "c", "T", "slice", "expand"]) for k_ in ("A", "B", "C", "D", "c1", "c2", "x", "u")},
             "dseed": rng.randrange(1 << 30)}
     evs = []
-    nev = rng.randint(3, 8)
+    nev = rng.randint(3, 8) if (quick or rng.random() < 0.8) else rng.randint(12, 40)     # long roll-outs
     for _ in range(nev):
         c = rng.random()
         if c < 0.55:
-            evs.append({"ev": "call", "feed": rng.random() < 0.6, "bx": sub_batch(rng, full), "bu": sub_batch(rng, full)})
+            evs.append({"ev": "call", "feed": rng.random() < 0.6, "bx": sub_batch(rng, full), "bu": sub_batch(rng, full),
+                        "same": rng.random() < 0.15, "scalar": rng.random() < 0.5})
         elif c < 0.62:
             evs.append({"ev": "xdim", "which": rng.choice(["x", "u"])})
         elif c < 0.68:
@@ -825,6 +832,13 @@ def gen_lin_case(seed, quick):
             extra.append({"ev": rng.choice(["assign", "assign", "reset", "ref"]), "t": {"slot": k_, "v": slots[k_], "as": "slot"}})
         else:
             extra.append({"ev": "twin", "op": rng.choice(["from_main", "call", "call", "reset", "to_main"])})
+    # stale reads: between calls the caller updates in place a system matrix / constant (through the system's own
+    # attribute) or the state tensor it is about to feed back
+    for _ in range(rng.choice([0, 0, 1, 2])):
+        if rng.random() < 0.6:
+            extra.append({"ev": "pokemat", "which": rng.choice(["A", "B", "C", "D", "c1", "c2"]), "how": rng.choice(["mul_", "add_", "setitem"])})
+        else:
+            extra.append({"ev": "pokex", "how": rng.choice(["mul_", "add_"])})
     for x_ in extra:
         evs.insert(rng.randint(0, len(evs)), x_)
     case["events"] = evs
@@ -837,16 +851,46 @@ def lin_tensors(case):
     n, m, p, T = case["n"], case["m"], case["p"], case["T"]
     ltv = case["sys"] != "lti"
 
-    def rnd(batch, core):
+    guards = []          # (buffer, mask of the cells outside the view, their expected content)
+
+    def rnd(batch, core, name):
         shape = tuple(batch) + ((T,) if ltv else ()) + tuple(core)
         a = torch.randn(shape, generator=g, dtype=torch.float64) * case["scale"]
         if case["dseed"] % 3 == 0:
-            a = torch.round(a * 4) / 4          # dyadic entries: the equations are then exact in float64
-        return a.to(dt)
-    A, B, C, D = rnd(case["bA"], (n, n)), rnd(case["bB"], (n, m)), rnd(case["bC"], (p, n)), rnd(case["bD"], (p, m))
-    c1 = rnd(case["bc1"], (n,)) if case["c1"] else None
-    c2 = rnd(case["bc2"], (p,)) if case["c2"] else None
+            a = torch.round(a * 4) / 4 if case["scale"] == 1.0 else a          # dyadic entries: the equations are then exact
+        if case.get("regimes") and len(batch) > 0:
+            tiny = 1e-20 if case["dtype"] == "float64" else 1e-10
+            fac = torch.tensor([0.0, tiny, 1.0, 1.0, 1e6])[torch.randint(0, 5, tuple(batch), generator=g)]
+            a = a * fac.reshape(tuple(batch) + (1,) * (len(shape) - len(batch)))
+        return lay(a.to(dt), case.get("layout", {}).get(name, "c"), len(batch), guards, g)
+    A, B, C, D = rnd(case["bA"], (n, n), "A"), rnd(case["bB"], (n, m), "B"), rnd(case["bC"], (p, n), "C"), rnd(case["bD"], (p, m), "D")
+    c1 = rnd(case["bc1"], (n,), "c1") if case["c1"] else None
+    c2 = rnd(case["bc2"], (p,), "c2") if case["c2"] else None
+    case["_guards"] = guards
     return g, A, B, C, D, c1, c2
+
+
+def lay(a, how, nbatch, guards, g):
+    """the same values in another memory layout: "T" transposed storage, "slice" a view into a larger buffer (the cells
+    outside the view are guarded), "expand" a stride-0 expansion along the first batch dim (items then coincide)"""
+    if how == "T" and a.ndim >= 2:
+        return a.mT.contiguous().mT
+    if how == "slice" and a.ndim >= 1:
+        big = torch.full(a.shape[:-1] + (a.shape[-1] + 3,), 7.5, dtype=a.dtype)
+        big[..., 1:-2] = a
+        guards.append((big, big.clone()))
+        return big[..., 1:-2]
+    if how == "expand" and nbatch >= 1 and a.shape[0] > 1:
+        return a[:1].expand(a.shape)
+    return a
+
+
+def guards_ok(guards, views):
+    """cells of the buffers outside the views are untouched (the views themselves may have been updated by the caller)"""
+    for big, keep in guards:
+        if not (torch.equal(big[..., 0], keep[..., 0]) and torch.equal(big[..., -2:], keep[..., -2:])):
+            return False
+    return True
 
 
 def make_lin(P, case, A, B, C, D, c1, c2):
@@ -950,17 +994,22 @@ def _check_lin(ctx: Ctx, case):
     if len(idxs) > 4:
         rr = random.Random(case["seed"] ^ 77)
         idxs = [idxs[0], idxs[-1]] + rr.sample(idxs[1:-1], 2)
-    hdr = f"c15.lin {'lti' if not ltv else 'ltv'} {1 if case['sys'] == 'ltvp' else 0} {T} {n} {m} {p} {1 if c1 is not None else 0} {1 if c2 is not None else 0} 0"
+    hdr0 = f"c15.lin {'lti' if not ltv else 'ltv'} {1 if case['sys'] == 'ltvp' else 0} {T} {n} {m} {p} {1 if c1 is not None else 0} {1 if c2 is not None else 0}"
 
     def stack_tokens(X, bnd, idx):
         it = bitem(X, bnd, full, idx).double()
         return wire_list(it.flatten().tolist())
-    data = {idx: " ".join(stack_tokens(X, len(b), idx) for X, b in
-                          ((A, case["bA"]), (B, case["bB"]), (C, case["bC"]), (D, case["bD"])) ) +
-            ((" " + stack_tokens(c1, len(case["bc1"]), idx)) if c1 is not None else "") +
-            ((" " + stack_tokens(c2, len(case["bc2"]), idx)) if c2 is not None else "") for idx in idxs}
-    ev_tokens = {idx: [] for idx in idxs}
-    impl = []            # per event: (clock, None | "R" | (xn, y))
+
+    def snapshot_data():
+        return {idx: " ".join(stack_tokens(X, len(b), idx) for X, b in
+                              ((A, case["bA"]), (B, case["bB"]), (C, case["bC"]), (D, case["bD"]))) +
+                ((" " + stack_tokens(c1, len(case["bc1"]), idx)) if c1 is not None else "") +
+                ((" " + stack_tokens(c2, len(case["bc2"]), idx)) if c2 is not None else "") for idx in idxs}
+    # the model gets the matrices once per segment; an in-place update of a matrix by the caller starts a new segment
+    # (same system object, current clock, current matrices)
+    segs = [{"c0": 0, "data": snapshot_data(), "toks": {idx: [] for idx in idxs}, "impl": []}]
+    ev_tokens, impl = segs[-1]["toks"], segs[-1]["impl"]
+    guards = case.pop("_guards", [])
     clock, last_x = 0, None
     ok = True
     for i, e in enumerate(case["events"]):
@@ -970,12 +1019,22 @@ def _check_lin(ctx: Ctx, case):
                 x = torch.randn(tuple(full) + (n + 1 if e["which"] == "x" else n,), generator=g, dtype=torch.float64).to(dt)
                 u = torch.randn(tuple(full) + (m + 1 if e["which"] == "u" else m,), generator=g, dtype=torch.float64).to(dt)
             else:
-                if ev == "call" and e["feed"] and last_x is not None:
+                lo = case.get("layout", {})
+                if ev == "call" and e["feed"] and last_x is not None and case["scale"] <= 1e3 and not case.get("regimes") \
+                        and float(last_x.abs().max()) < (1e25 if case["dtype"] == "float32" else 1e250):
                     x = last_x
                 else:
-                    x = (torch.randn(tuple(e["bx"]) + (n,), generator=g, dtype=torch.float64) * case["scale"]).to(dt)
-                u = torch.randn(tuple(e["bu"]) + (m,), generator=g, dtype=torch.float64).to(dt)
-                if case["scalar"] and x.ndim == 1 and u.ndim == 1:
+                    xr = torch.randn(tuple(e["bx"]) + (n,), generator=g, dtype=torch.float64) * case["scale"]
+                    if case.get("regimes") and len(e["bx"]) > 0:     # zero / tiny / ordinary / large states in one batch
+                        tiny = 1e-20 if case["dtype"] == "float64" else 1e-10
+                        ri = torch.randint(0, 5, tuple(e["bx"]), generator=g)
+                        ri.view(-1)[0] = 0                            # at least one exactly-zero state next to the others
+                        xr = xr * torch.tensor([0.0, tiny, 1.0, 1.0, 1e6])[ri].unsqueeze(-1)
+                    x = lay(xr.to(dt), lo.get("x", "c"), len(e["bx"]), guards, g)
+                u = lay(torch.randn(tuple(e["bu"]) + (m,), generator=g, dtype=torch.float64).to(dt), lo.get("u", "c"), len(e["bu"]), guards, g)
+                if e.get("same") and n == m and x.shape == u.shape:
+                    u = x                                          # the same tensor object as state and as input
+                if case["scalar"] and e.get("scalar", True) and x.ndim == 1 and u.ndim == 1:
                     x, u = x.reshape(()), u.reshape(())           # 0-dim state and input: atleast_1d
             xk, uk = x.clone(), u.clone()
             sl = py_slice(case, clock)
@@ -988,6 +1047,9 @@ def _check_lin(ctx: Ctx, case):
             if not torch.equal(x, xk) or not torch.equal(u, uk):
                 ctx.fail({**pub(case), "at": i}, "mutation: a call modified the caller's state/input tensor")
                 ok = False
+            if not guards_ok(guards, None):
+                ctx.fail({**pub(case), "at": i}, "mutation: a call wrote outside the view it was given (cells of the enclosing buffer changed)")
+                raise _Abort()
             xb = x if x.ndim else x.reshape(1)
             ub = u if u.ndim else u.reshape(1)
             for idx in idxs:
@@ -1007,7 +1069,8 @@ def _check_lin(ctx: Ctx, case):
             else:
                 xn, y = out
                 magrec = {}
-                impl.append((clk(ctx, case, sys_, i, ev), (xn, y, magrec)))
+                impl.append((clk(ctx, case, sys_, i, ev), (xn.clone() if isinstance(xn, torch.Tensor) else xn,
+                                                           y.clone() if isinstance(y, torch.Tensor) else y, magrec)))
                 if expect_raise:
                     ctx.fail({**pub(case), "at": i}, f"lin-no-raise: call at clock {clock} (slice {sl}, event {ev}) returned instead of raising")
                     ok = False
@@ -1022,6 +1085,9 @@ def _check_lin(ctx: Ctx, case):
                                                     f"the equations with broadcasting give {bsx + (n,)}, {bsy + (p,)}")
                         case["_lines"], case["_impl"] = [], []
                         return False
+                    if not (bool(torch.isfinite(xn).all()) and bool(torch.isfinite(y).all())):
+                        ctx.fail({**pub(case), "at": i}, f"lin-eq: non-finite output at clock {clock} although the exact result is far from overflow")
+                        raise _Abort()
                     for idx in idxs:
                         def it(X, b):
                             Xs = X[..., sl, :, :] if (ltv and X.ndim - len(b) == 3) else (X[..., sl, :] if (ltv and X is not None) else X)
@@ -1056,7 +1122,27 @@ def _check_lin(ctx: Ctx, case):
         else:
             tok = None
             try:
-                if ev == "twin":            # a second system exchanging times with this one: no shared clock
+                if ev == "pokex":           # the caller updates in place the state tensor it is going to feed back
+                    clock_expect = clock
+                    if last_x is not None:
+                        last_x.mul_(0.5) if e["how"] == "mul_" else last_x.add_(0.25)
+                elif ev == "pokemat":       # … or a matrix / constant of the system, through the system's own attribute
+                    clock_expect = clock
+                    tgt = {"A": sys_._A, "B": sys_._B, "C": sys_._C, "D": sys_._D, "c1": sys_._c1, "c2": sys_._c2}[e["which"]]
+                    own = {"A": A, "B": B, "C": C, "D": D, "c1": c1, "c2": c2}[e["which"]]
+                    if tgt is not None and case.get("layout", {}).get(e["which"], "c") != "expand":
+                        if tgt is not own:
+                            ctx.fail({**pub(case), "at": i}, f"attribute: system attribute _{e['which']} is not the tensor the system was built with")
+                        if e["how"] == "mul_":
+                            tgt.mul_(2.0)
+                        elif e["how"] == "add_":
+                            tgt.add_(0.5 * case["scale"])
+                        else:
+                            tgt[(0,) * tgt.ndim] = 1.25 * case["scale"]
+                        keep = [t.clone() if t is not None else None for t in (A, B, C, D, c1, c2)]
+                        segs.append({"c0": clock, "data": snapshot_data(), "toks": {idx: [] for idx in idxs}, "impl": []})
+                        ev_tokens, impl = segs[-1]["toks"], segs[-1]["impl"]
+                elif ev == "twin":            # a second system exchanging times with this one: no shared clock
                     op = e["op"]
                     clock_expect = clock
                     if op == "from_main":
@@ -1121,8 +1207,9 @@ def _check_lin(ctx: Ctx, case):
         if t_ is not None and not torch.equal(t_, k_):
             ctx.fail(pub(case), "mutation: a system matrix was modified by the calls")
             ok = False
-    case["_lines"] = [(idx, hdr + " " + data[idx] + " " + " ".join(ev_tokens[idx])) for idx in idxs]
-    case["_impl"] = impl
+    case["_lines"] = [(idx, f"{hdr0} {sg['c0']} " + sg["data"][idx] + " " + " ".join(sg["toks"][idx]), sg["impl"])
+                      for sg in segs if sg["impl"] for idx in idxs]
+    case["_impl"] = [o for sg in segs for o in sg["impl"]]
     return ok
 
 
@@ -1159,9 +1246,9 @@ def run_lin(ctx: Ctx, cases):
         ctx.count(f"lin.{case['sys']}.batch{len(case['full'])}.{case['dtype']}")
         for e in case["events"]:
             ctx.count("lin.ev." + e["ev"])
-        for idx, ln in ls:
+        for idx, ln, seg_impl in ls:
             lines.append(ln)
-            metas.append((case, idx, impl))
+            metas.append((case, idx, seg_impl))
     if cases:
         c0 = cases[0]
         ctx.sample({"stream": "lin", **{k: v for k, v in c0.items() if k not in ("events",)}, "events": sig_events(c0["events"])})
@@ -1255,6 +1342,22 @@ def gen_nls_case(seed, quick):
         else:
             x_ = {"ev": "twin", "op": rng.choice(["from_main", "call", "call", "reset", "to_main"])}
         evs.insert(rng.randint(0, len(evs)), x_)
+    # object re-use: the public `jacargs` attribute is changed between reads (same derivative, other autograd route);
+    # views: states / inputs that are rows of a larger trajectory buffer
+    for _ in range(rng.choice([0, 0, 1, 2])):
+        evs.insert(rng.randint(0, len(evs)), {"ev": "jacargs", "v": rng.choice([[True, "reverse-mode"], [False, "reverse-mode"], [True, "forward-mode"]])})
+    for e_ in evs:
+        if e_["ev"] in ("call", "ref"):
+            e_["lay"] = rng.choice(["c", "c", "slice"])
+    # stale reads / aliases: the caller updates in place (add_, copy_, item assignment) a tensor it handed to the system —
+    # the state/input of the last forward, the state/input/time given to set_refpoint — and goes on
+    for _ in range(rng.choice([0, 0, 1, 1, 2, 3])):
+        x_ = {"ev": "poke", "tgt": rng.choice(["lastX", "lastU", "refX", "refX", "refU", "refT"]), "how": rng.choice(["add_", "copy_", "setitem"]),
+              "delta": rng.choice([0.5, -1.25, 2.0, 1e-3 if dtype == "float64" else 0.125]), "fill": rng.choice([0.0, 1.5, -2.0, 0.75]), "j": rng.randrange(3)}
+        pos = rng.randint(0, len(evs))
+        evs.insert(pos, x_)
+        if rng.random() < 0.6:
+            evs.insert(min(len(evs), pos + 1 + rng.randint(0, 2)), {"ev": "read"})
     if not any(e["ev"] == "read" for e in evs):
         evs.append({"ev": "read"})
     return {"kind": "nls", "seed": seed, "nx": nx, "nu": nu, "dtype": dtype, "fs": fs, "gs": gs, "events": evs, "slots": slots}
@@ -1278,12 +1381,23 @@ def make_nls(P, case):
     return TreeNLS()
 
 
-def nls_model_events(case):
-    """events that reach the model, with the literal time of `to_main` (the second system's clock follows its own law,
-    which is a function of the event list: multi_clock_independent)"""
+def nls_sim(case):
+    """Caller-side simulation of a history, a function of the event list alone: for every event the token the model gets
+    (None: the event does not reach the model), the resolved content of `None` arguments, the content a poked tensor has
+    afterwards, and whether a tensor that a successful set_refpoint was given has been updated in place since.
+    The second system's clock follows its own law (multi_clock_independent)."""
+    dt = DT(case["dtype"])
+    objs, nid = {}, [0]          # id -> content (python floats exactly representable in dtype)
+
+    def new(vals):
+        nid[0] += 1
+        objs[nid[0]] = list(vals)
+        return nid[0]
     out, clock, twin = [], 0, 0
+    last, refo, ref_ok, ref_poked, ref_has_t = None, None, False, False, False
     for i, e in enumerate(case["events"]):
         k_ = e["ev"]
+        info = {"i": i, "tok": None}
         if k_ == "twin":
             if e["op"] == "from_main":
                 twin = clock
@@ -1293,39 +1407,74 @@ def nls_model_events(case):
                 twin = 0
             else:
                 clock = twin
-                out.append((i, {"ev": "assign", "t": {"v": twin, "as": "py"}}))
-            continue
-        if k_ == "call":
+                info["tok"] = "assign=" + to_wire(twin)
+        elif k_ == "call":
             clock += 1
-        elif k_ == "reset":
-            clock = 0 if e["t"] is None else int(e["t"]["v"])
-        elif k_ == "assign":
-            clock = int(e["t"]["v"])
-        out.append((i, e))
-    return out
-
-
-def nls_line(case, alias):
-    toks = []
-    for t in case["fs"] + case["gs"]:
-        tree_tokens(t, toks)
-    ev = []
-    for _, e in nls_model_events(case):
-        k_ = e["ev"]
-        if k_ == "call":
-            ev.append(f"call {len(e['x'])} {wire_list(e['x'])} {len(e['u'])} {wire_list(e['u'])}")
+            last = (new(e["x"]), new(e["u"]))
+            info["tok"] = f"call {len(e['x'])} {wire_list(e['x'])} {len(e['u'])} {wire_list(e['u'])}"
         elif k_ == "ref":
+            can = (e["x"] is not None or last is not None) and (e["u"] is not None or last is not None)
             xs = "-" if e["x"] is None else f"{len(e['x'])} {wire_list(e['x'])}"
             us = "-" if e["u"] is None else f"{len(e['u'])} {wire_list(e['u'])}"
             ts = "-" if e["t"] is None else ("L" if e["t"] == "live" else (to_wire(e["t"]["v"]) if "slot" in e["t"] else time_token(mk_time(e["t"]))))
-            ev.append(f"ref {xs} {us} {ts}")
+            info["tok"] = f"ref {xs} {us} {ts}"
+            info["can"] = can
+            if can:
+                ox = new(e["x"]) if e["x"] is not None else last[0]
+                ou = new(e["u"]) if e["u"] is not None else last[1]
+                refo, ref_ok, ref_poked = (ox, ou), True, False
+                ref_has_t = isinstance(e["t"], dict) and "slot" not in e["t"]
+                info["x_res"], info["u_res"] = list(objs[ox]), list(objs[ou])
+            else:
+                ref_ok = False          # a partial update may have happened: the reference objects are not tracked further
         elif k_ == "reset":
-            ev.append("reset=" + (to_wire(0) if e["t"] is None else to_wire(e["t"]["v"])))
+            clock = 0 if e["t"] is None else int(e["t"]["v"])
+            info["tok"] = "reset=" + (to_wire(0) if e["t"] is None else to_wire(e["t"]["v"]))
         elif k_ == "assign":
-            ev.append("assign=" + to_wire(e["t"]["v"]))
-        else:
-            ev.append("read")
-    return f"c15.nls {alias} 0 {len(case['fs'])} {len(case['gs'])} " + " ".join(toks) + " " + " ".join(ev)
+            clock = int(e["t"]["v"])
+            info["tok"] = "assign=" + to_wire(e["t"]["v"])
+        elif k_ == "read":
+            info["tok"] = "read"
+            info["ref_poked"] = ref_poked
+        elif k_ == "poke":
+            tgt = e["tgt"]
+            if tgt == "refT":
+                info["do"] = ref_ok and ref_has_t
+            else:
+                oid = None
+                if tgt in ("lastX", "lastU") and last is not None:
+                    oid = last[0 if tgt == "lastX" else 1]
+                if tgt in ("refX", "refU") and ref_ok:
+                    oid = refo[0 if tgt == "refX" else 1]
+                info["do"] = oid is not None
+                if oid is not None:
+                    cur = torch.tensor(objs[oid], dtype=dt)
+                    if e["how"] == "add_":
+                        cur.add_(e["delta"])
+                    elif e["how"] == "copy_":
+                        cur.copy_(torch.tensor([e["fill"] + 0.25 * q_ for q_ in range(len(objs[oid]))], dtype=dt))
+                    else:
+                        cur[e["j"] % len(objs[oid])] = e["fill"]
+                    objs[oid] = cur.double().tolist()
+                    info["content"] = list(objs[oid])
+                    info["tok"] = f"poke {tgt} {len(objs[oid])} {wire_list(objs[oid])}"
+                    if ref_ok and oid in refo:
+                        ref_poked = True
+        out.append(info)
+    return out
+
+
+def nls_model_events(case):
+    """(event index, token) of the events that reach the model"""
+    return [(d["i"], d["tok"]) for d in nls_sim(case) if d["tok"] is not None]
+
+
+def nls_line(case, alias_t, alias_x):
+    toks = []
+    for t in case["fs"] + case["gs"]:
+        tree_tokens(t, toks)
+    ev = [tok for _, tok in nls_model_events(case)]
+    return f"c15.nls {alias_t} {alias_x} 0 {len(case['fs'])} {len(case['gs'])} " + " ".join(toks) + " " + " ".join(ev)
 
 
 def parse_nls_reply(rep, case):
@@ -1380,6 +1529,23 @@ def nls_tolerances(case, xs, us, tA, tF, eps):
     return tols
 
 
+SITE_X = "pypose/module/dynamics.py:NLS.set_refpoint/forward"
+PREDICATE_X = "ref_state_or_input_is_callers_tensor_and_caller_updated_it_in_place"
+
+
+def known_alias_state(kf, case):
+    """recognises exactly the finding `_ref_state/_ref_input are the caller's tensors (no copy)`: call site + input region
+    (a tensor that the last successful set_refpoint took as state/input — explicitly or as the last forward's — was
+    updated in place by the caller between set_refpoint and the read) and the implementation behaving precisely as the
+    reference-by-alias model predicts."""
+    return (kf.get("site") == SITE_X and kf.get("predicate") == PREDICATE_X
+            and case.get("ref_tensor_updated_in_place_since_ref") is True and case.get("matches_alias_model") is True)
+
+
+def known_any(kf, case):
+    return known_alias(kf, case) or known_alias_state(kf, case)
+
+
 def known_alias(kf, case):
     """recognises exactly the finding `set_refpoint stores the clock buffer as _ref_t`: call site + input region
     (reference time left to default / given as sys.systime, clock changed between set_refpoint and the read) and the
@@ -1416,19 +1582,37 @@ def _check_nls(ctx: Ctx, case, model_doc=None, model_alias=None, oracle_budget=N
     twin, twin_clock = make_simple(P, "lti"), 0
     clock, last, ref = 0, None, None          # python-side bookkeeping of the documented semantics
     ok = True
-    handed = []
+    handed = []                               # [tensor, expected content]: the system never modifies the caller's tensors
+    sim = nls_sim(case)
+    objs = {"lastX": None, "lastU": None, "refX": None, "refU": None, "refT": None}
     rr = random.Random(case["seed"] ^ 0x5EED)
 
-    def T(vals, scalar=False):
+    guards = []
+
+    def T(vals, scalar=False, how="c"):
         t = torch.tensor(vals, dtype=dt)
+        if how == "slice" and not (scalar and len(vals) == 1):
+            buf = torch.full((3, len(vals) + 2), 7.5, dtype=dt)          # a row of a trajectory buffer, not contiguous
+            buf[1, 1:-1] = t
+            guards.append((buf, buf.clone()))
+            return buf[1, 1:-1]
         return t.reshape(()) if (scalar and len(vals) == 1) else t
+
+    def guards_clean():
+        for buf, kp in guards:
+            m_ = torch.ones_like(buf, dtype=torch.bool)
+            m_[1, 1:-1] = False
+            if not torch.equal(buf[m_], kp[m_]):
+                return False
+        return True
     for i, e in enumerate(case["events"]):
         k_ = e["ev"]
         md = model_doc.get(i) if model_doc else None
         ma = model_alias.get(i) if model_alias else None
         if k_ == "call":
-            x, u = T(e["x"], e["scalar"]), T(e["u"], e["scalar"])
-            handed += [(x, x.clone()), (u, u.clone())]
+            x, u = T(e["x"], e["scalar"], e.get("lay", "c")), T(e["u"], e["scalar"], e.get("lay", "c"))
+            handed += [[x, x.clone()], [u, u.clone()]]
+            objs["lastX"], objs["lastU"] = x, u
             try:
                 f, g_ = sys_(x, u)
             except Exception as ex:
@@ -1450,8 +1634,8 @@ def _check_nls(ctx: Ctx, case, model_doc=None, model_alias=None, oracle_budget=N
             last = (e["x"], e["u"])
             clock_expect = clock + 1
         elif k_ == "ref":
-            xa = None if e["x"] is None else T(e["x"], e["scalar"])
-            ua = None if e["u"] is None else T(e["u"], e["scalar"])
+            xa = None if e["x"] is None else T(e["x"], e["scalar"], e.get("lay", "c"))
+            ua = None if e["u"] is None else T(e["u"], e["scalar"], e.get("lay", "c"))
             if e["t"] is None:
                 ta = None
             elif e["t"] == "live":
@@ -1462,10 +1646,10 @@ def _check_nls(ctx: Ctx, case, model_doc=None, model_alias=None, oracle_budget=N
                 ta = mk_time(e["t"])
                 if e["t"].get("dim1"):
                     ta = ta.reshape(1)
-                handed.append((ta, ta.clone()))
+                handed.append([ta, ta.clone()])
             for t_ in (xa, ua):
                 if t_ is not None:
-                    handed.append((t_, t_.clone()))
+                    handed.append([t_, t_.clone()])
             can = (e["x"] is not None or last is not None) and (e["u"] is not None or last is not None)
             try:
                 r = sys_.set_refpoint(state=xa, input=ua, t=ta)
@@ -1483,8 +1667,12 @@ def _check_nls(ctx: Ctx, case, model_doc=None, model_alias=None, oracle_budget=N
             if md and ((md[1] == "R") != (raised is not None)):
                 ctx.disagree("nls.ref", {**strip(case), "at": i}, f"set_refpoint outcome: implementation {'raised' if raised else 'ok'}, model {md[1]}")
             if raised is None:
-                xs = e["x"] if e["x"] is not None else last[0]
-                us = e["u"] if e["u"] is not None else last[1]
+                # documented: the reference point is the CONTENT the tensors have now (a snapshot); `None` = the tensors of
+                # the last forward (the caller's own objects) as they are now
+                xs, us = sim[i]["x_res"], sim[i]["u_res"]
+                objs["refX"] = xa if xa is not None else objs["lastX"]
+                objs["refU"] = ua if ua is not None else objs["lastU"]
+                objs["refT"] = ta if (isinstance(e["t"], dict) and "slot" not in e["t"]) else None
                 if e["t"] is None or e["t"] == "live":
                     ts, mode = clock, ("default" if e["t"] is None else "live")
                 elif "slot" in e["t"]:
@@ -1510,6 +1698,28 @@ def _check_nls(ctx: Ctx, case, model_doc=None, model_alias=None, oracle_budget=N
             except Exception as ex:
                 ctx.fail({**strip(case), "at": i}, f"clock-raises: {k_} raised {type(ex).__name__}: {str(ex)[:100]}")
                 return False
+        elif k_ == "jacargs":       # public attribute changed between reads: same derivative by another autograd route
+            clock_expect = clock
+            sys_.jacargs = {"vectorize": e["v"][0], "strategy": e["v"][1]}
+        elif k_ == "poke":          # the caller updates, in place, a tensor it handed to the system earlier
+            clock_expect = clock
+            if sim[i].get("do"):
+                tobj = objs[e["tgt"]]
+                if e["tgt"] == "refT":
+                    tobj.add_(3)
+                elif e["how"] == "add_":
+                    tobj.add_(e["delta"])
+                elif e["how"] == "copy_":
+                    tobj.copy_(torch.tensor([e["fill"] + 0.25 * q_ for q_ in range(tobj.numel())], dtype=dt).reshape(tobj.shape))
+                elif tobj.ndim == 0:
+                    tobj.fill_(e["fill"])
+                else:
+                    tobj[e["j"] % tobj.numel()] = e["fill"]
+                if e["tgt"] != "refT" and tobj.double().reshape(-1).tolist() != sim[i]["content"]:
+                    raise common.InfraError("harness: poke simulation out of step with the tensor")
+                for h_ in handed:
+                    if h_[0] is tobj:
+                        h_[1] = tobj.clone()
         elif k_ == "twin":          # a second system exchanging times with this one: nothing is shared afterwards
             op = e["op"]
             clock_expect = clock
@@ -1560,7 +1770,11 @@ def _check_nls(ctx: Ctx, case, model_doc=None, model_alias=None, oracle_budget=N
                     t_alias = ref["t"] if ref["mode"] == "value" else clock
                     if ref["ok"]:
                         tolsd = nls_tolerances(case, ref["x"], ref["u"], t_doc, t_doc, eps)
-                        tolsa = nls_tolerances(case, ref["x"], ref["u"], t_alias, t_doc, eps)
+                        # the "caller's tensors are the reference point" semantics: Jacobians at their current content
+                        xcur = objs["refX"].double().reshape(-1).tolist() if objs["refX"] is not None else ref["x"]
+                        ucur = objs["refU"].double().reshape(-1).tolist() if objs["refU"] is not None else ref["u"]
+                        ta_ = nls_tolerances(case, xcur, ucur, t_doc, t_doc, eps)
+                        tolsa = {k2: [max(a_, b_) for a_, b_ in zip(tolsd[k2], ta_[k2])] for k2 in tolsd} if all(len(tolsd[k2]) == len(ta_[k2]) for k2 in tolsd) else ta_
                     else:
                         # a failed set_refpoint may have left a mix of old and new attributes (modelled statement by
                         # statement): tolerance from the largest magnitudes that occur anywhere in the history
@@ -1584,6 +1798,7 @@ def _check_nls(ctx: Ctx, case, model_doc=None, model_alias=None, oracle_budget=N
                     changed = clock != ref["clock"]
                     cinfo = {**strip(case), "at": i, "site": SITE, "ref_t_mode": ref["mode"],
                              "clock_changed_since_ref": bool(changed and ref["mode"] != "value"),
+                             "ref_tensor_updated_in_place_since_ref": bool(sim[i].get("ref_poked")),
                              "matches_alias_model": bool(verdict_alias and verdict_alias[0] and verdict_doc and not verdict_doc[0]),
                              "ref_clock": ref["clock"], "read_clock": clock}
                     full = oracle_budget is None or oracle_budget[0] > 0 or bool(verdict_doc and not verdict_doc[0])
@@ -1617,15 +1832,19 @@ def _check_nls(ctx: Ctx, case, model_doc=None, model_alias=None, oracle_budget=N
             ctx.disagree("nls.clock", {**strip(case), "at": i}, f"after event {i} implementation systime {now}, model {md[0]}")
         clock = now
     for tv, keep in handed:
-        if not torch.equal(tv, keep):
-            ctx.fail(strip(case), "mutation: a tensor handed to the system (state / input / t) was modified")
+        if tv.shape != keep.shape or not torch.equal(tv, keep):
+            ctx.fail(strip(case), "mutation: a tensor handed to the system (state / input / t) was modified by the system")
             ok = False
+    if not guards_clean():
+        ctx.fail(strip(case), "mutation: the system wrote outside the view it was given (cells of the caller's trajectory buffer changed)")
+        ok = False
     return ok
 
 
 def strip(case):
     """compact, JSON-able identification of an nls case (the sub-seed regenerates everything)"""
-    return {"kind": "nls", "seed": case["seed"], "nx": case["nx"], "nu": case["nu"], "dtype": case["dtype"],
+    return {"kind": "nls", "seed": case["seed"], **({"corpus": case["corpus"]} if "corpus" in case else {}),
+            "nx": case["nx"], "nu": case["nu"], "dtype": case["dtype"],
             "f": [" ".join(tree_tokens(t, [])) for t in case["fs"]], "g": [" ".join(tree_tokens(t, [])) for t in case["gs"]],
             "events": [{k: v for k, v in e.items()} for e in case["events"]], "slots": case.get("slots", [])}
 
@@ -1640,7 +1859,7 @@ def nls_oracles(ctx, case, cinfo, sys_, ref, got, eps, dt, rr, full):
     ok = True
     env0 = [mp.mpf(v) for v in ref["x"]] + [mp.mpf(v) for v in ref["u"]] + [mp.mpf(ts)]
     ea = [abs(v) for v in ref["x"]] + [abs(v) for v in ref["u"]] + [abs(ts)]
-    km = known_alias
+    km = known_any
     # (1) Jacobians = partial derivatives (50-digit numerical differentiation of the independent evaluator)
     if full:
         for trees, ja, jb in ((case["fs"], "A", "B"), (case["gs"], "C", "D")):
@@ -1713,8 +1932,8 @@ def nls_oracles(ctx, case, cinfo, sys_, ref, got, eps, dt, rr, full):
 def run_nls(ctx: Ctx, cases, oracle_reads):
     lines = []
     for case in cases:
-        lines.append(nls_line(case, 0))
-        lines.append(nls_line(case, 1))
+        lines.append(nls_line(case, 0, 0))       # documented: the reference point is a snapshot
+        lines.append(nls_line(case, 0, 1))       # _ref_state/_ref_input are the caller's tensors
     reps = ctx.driver.run(lines)
     budget = [oracle_reads]
     for k_, case in enumerate(cases):
@@ -1744,9 +1963,16 @@ def gen_bmv_case(seed, quick):
     rng = random.Random(seed)
     fn = rng.choice(["bmv", "bmv", "bvv", "bvmv"])
     full = rng.choice(BATCHES)
-    n, m = rng.randint(1, 4), rng.randint(1, 4)
-    return {"kind": "bmv", "seed": seed, "fn": fn, "full": full, "n": n, "m": m, "dtype": rng.choice(["float64", "float64", "float32"]),
-            "b1": sub_batch(rng, full), "b2": sub_batch(rng, full), "b3": sub_batch(rng, full),
+    n, m = rng.choice([1, 2, 3, 4, 4, 7]), rng.choice([1, 2, 3, 4, 7])
+    same = rng.random() < 0.2                  # the same tensor object passed as both vector arguments
+    if same:
+        m = n
+    dtype = rng.choice(["float64", "float64", "float32"])
+    b1 = sub_batch(rng, full)
+    return {"kind": "bmv", "seed": seed, "fn": fn, "full": full, "n": n, "m": m, "dtype": dtype,
+            "b1": b1, "b2": sub_batch(rng, full), "b3": sub_batch(rng, full), "same": same,
+            "scale": rng.choice([3.0, 3.0, 3.0] + ([1e-40, 1e40, 1e-9] if dtype == "float64" else [1e-8, 1e8])),
+            "regimes": rng.random() < 0.3, "layout": [rng.choice(["c", "c", "T", "slice", "expand"]) for _ in range(3)],
             "lie": rng.random() < 0.12, "out": rng.random() < 0.15, "dyadic": rng.random() < 0.4, "dseed": rng.randrange(1 << 30)}
 
 
@@ -1756,12 +1982,23 @@ def check_bmv(ctx: Ctx, case):
     dt, eps = DT(case["dtype"]), common.EPS[case["dtype"]]
     n, m, full, fn = case["n"], case["m"], case["full"], case["fn"]
 
+    guards = []
+    nth = [0]
+
     def rnd(batch, core):
-        a = torch.randn(tuple(batch) + tuple(core), generator=g, dtype=torch.float64) * 3
-        if case["dyadic"]:
+        sc = case.get("scale", 3.0) if not case.get("regimes") else 3.0
+        a = torch.randn(tuple(batch) + tuple(core), generator=g, dtype=torch.float64) * sc
+        if case["dyadic"] and sc == 3.0:
             a = torch.round(a * 8) / 8
-        return a.to(dt)
+        if case.get("regimes") and len(batch) > 0:      # zero / tiny / ordinary / large items in one batch
+            tiny = 1e-20 if case["dtype"] == "float64" else 1e-10
+            fac = torch.tensor([0.0, tiny, 1.0, 1.0, 1e6])[torch.randint(0, 5, tuple(batch), generator=g)]
+            a = a * fac.reshape(tuple(batch) + (1,) * len(core))
+        how = case.get("layout", ["c"] * 3)[nth[0] % 3]
+        nth[0] += 1
+        return lay(a.to(dt), how, len(batch), guards, g)
     lie = case["lie"]
+    same = case.get("same", False)
     if fn == "bmv":
         if lie:
             m = 3
@@ -1769,10 +2006,12 @@ def check_bmv(ctx: Ctx, case):
         args = [M, P.so3(v) if lie else v]
         raw = [M, v]
     elif fn == "bvv":
-        l, r = rnd(case["b1"], (n,)), rnd(case["b2"], (m,))
+        l = rnd(case["b1"], (n,))
+        r = l if same else rnd(case["b2"], (m,))
         args, raw = [l, r], [l, r]
     else:
-        l, M, r = rnd(case["b1"], (n,)), rnd(case["b2"], (n, m)), rnd(case["b3"], (m,))
+        l, M = rnd(case["b1"], (n,)), rnd(case["b2"], (n, m))
+        r = l if same else rnd(case["b3"], (m,))
         args, raw = [l, M, r], [l, M, r]
     keep = [a.clone() for a in raw]
     try:
@@ -1795,10 +2034,13 @@ def check_bmv(ctx: Ctx, case):
         if not torch.equal(a, k_):
             ctx.fail(pub(case), f"mutation: {fn} modified an argument")
             ok = False
+    if not guards_ok(guards, None):
+        ctx.fail(pub(case), f"mutation: {fn} wrote outside the view it was given")
+        ok = False
     if type(y) is not torch.Tensor:
         ctx.fail(pub(case), f"bmv-type: {fn} returned {type(y).__name__}")
         return False
-    bs = torch.broadcast_shapes(*[tuple(b) for b in ([case["b1"], case["b2"]] + ([case["b3"]] if fn == "bvmv" else []))])
+    bs = torch.broadcast_shapes(*[tuple(a.shape[:a.ndim - (2 if ((fn == "bmv" and k_ == 0) or (fn == "bvmv" and k_ == 1)) else 1)]) for k_, a in enumerate(raw)])
     core = {"bmv": (n,), "bvv": (n, m), "bvmv": ()}[fn]
     want_shape = tuple(bs) + core if (fn != "bvmv" or bs) else (1,)
     if tuple(y.shape) != want_shape:
@@ -1841,7 +2083,7 @@ def check_bmv(ctx: Ctx, case):
 def run_bmv(ctx: Ctx, cases):
     lines, metas = [], []
     for case in cases:
-        check_bmv(ctx, case)
+        guarded(ctx, case, check_bmv)
         ls, gots = case.pop("_lines", []), case.pop("_got", [])
         ctx.note_case(("bmv", case["fn"], case["n"], case["m"], tuple(case["full"]), tuple(case["b1"]), tuple(case["b2"]), case["dtype"], case["lie"], case["out"]), True)
         ctx.count("bmv." + case["fn"])
@@ -1861,6 +2103,123 @@ def run_bmv(ctx: Ctx, cases):
                 break
 
 
+
+# ============================================================================= deterministic corner corpora (run first)
+
+def _lin(k, sys, n, m, p, T, full, events, **kw):
+    c = {"kind": "lin", "corpus": k, "seed": 9000 + k, "sys": sys, "n": n, "m": m, "p": p, "T": T, "full": full, "dtype": "float64",
+         "bA": list(full), "bB": list(full), "bC": list(full), "bD": list(full), "c1": True, "c2": True, "bc1": list(full), "bc2": list(full),
+         "scalar": False, "scale": 1.0, "regimes": False, "layout": {}, "dseed": 500 + 3 * k + 1, "slots": [1, 2], "events": events}
+    c.update(kw)
+    return c
+
+
+def _call(feed=False, bx=(), bu=(), same=False, scalar=True):
+    return {"ev": "call", "feed": feed, "bx": list(bx), "bu": list(bu), "same": same, "scalar": scalar}
+
+
+def _set(ev, v, how="py"):
+    return {"ev": ev, "t": None if v is None else {"v": v, "as": how}}
+
+
+LIN_CORPUS = [
+    # 0-dim state and input on a 1x1 system, fed back, reset in between
+    _lin(0, "lti", 1, 1, 1, 1, [], [_call(), _call(True), _call(True, scalar=False), _set("reset", 5), _call(True), {"ev": "fwd", "bx": [], "bu": []}, _call()], scalar=True),
+    # every tensor with its own broadcastable batch; constants: c1 batched, c2 absent; a matrix updated in place between calls
+    _lin(1, "lti", 3, 2, 4, 1, [3, 1, 2], [_call(bx=[3, 1, 2], bu=[2]), _call(True, bu=[1, 2]), {"ev": "pokemat", "which": "A", "how": "mul_"}, _call(True, bu=[]),
+                                          {"ev": "xdim", "which": "x"}, {"ev": "pokemat", "which": "c1", "how": "setitem"}, _call(bx=[], bu=[3, 1, 1]), {"ev": "xdim", "which": "u"}, _call(True)],
+         bA=[1, 2], bB=[2], bC=[], bD=[3, 1, 2], bc1=[2], c2=False),
+    # LTV indexed by _t: negative wrap, last slice, first index out of range on either side, roll-out running off the end
+    _lin(2, "ltvi", 2, 1, 2, 3, [], [_set("assign", -3), _call(), _set("assign", -1), _call(), _set("assign", 2), _call(), _call(), _set("assign", -4), _call(),
+                                     _set("reset", None), _call(), _call(True), _call(True), _call(True), _set("ref", 1, "int64"), _call()]),
+    # LTV indexed by _t % T: negative and huge clocks, set_refpoint(t) as the only way the time is set
+    _lin(3, "ltvp", 2, 2, 1, 4, [2], [_set("assign", -1), _call(bx=[2]), _set("assign", 1000), _call(), _call(True), _set("reset", 10 ** 12), _call(), _set("ref", 7, "int64"), _call(),
+                                      _set("ref", -6, "int64"), _call(same=True, bx=[2], bu=[2])]),
+    # float32, mixed regimes in one batch, non-contiguous matrices, state and input the same tensor
+    _lin(4, "lti", 2, 2, 3, 1, [3], [_call(bx=[3], bu=[3], same=True), _call(bx=[3], bu=[3]), _call(bx=[], bu=[3], same=True), _call(bx=[3], bu=[])],
+         dtype="float32", regimes=True, layout={"A": "T", "B": "slice", "C": "T", "D": "slice", "c1": "slice", "c2": "c", "x": "slice", "u": "slice"}),
+    # larger dimensions, expanded (stride-0) matrices, a 10-step feedback roll-out
+    _lin(5, "lti", 6, 4, 5, 1, [2, 3], [_call(bx=[2, 3], bu=[3])] + [_call(True, bu=[2, 1])] * 9,
+         layout={"A": "expand", "B": "expand", "C": "c", "D": "expand", "c1": "expand", "c2": "c"}, scale=0.3),
+    # caller's in-place updates between every pair of calls, a second system exchanging times
+    _lin(6, "ltvp", 2, 1, 2, 2, [], [_call(), {"ev": "pokex", "how": "add_"}, _call(True), {"ev": "pokemat", "which": "B", "how": "add_"}, {"ev": "twin", "op": "from_main"}, _call(True),
+                                     {"ev": "twin", "op": "call"}, {"ev": "pokemat", "which": "D", "how": "setitem"}, _call(), {"ev": "twin", "op": "to_main"}, _call(True),
+                                     {"ev": "assign", "t": {"slot": 0, "v": 1, "as": "slot"}}, _call(), {"ev": "pokemat", "which": "c2", "how": "mul_"}, _call(True)]),
+    # extreme magnitudes
+    _lin(7, "lti", 3, 2, 2, 1, [2], [_call(bx=[2], bu=[2]), _call(bx=[], bu=[2])], scale=1e-30),
+    _lin(8, "lti", 3, 2, 2, 1, [2], [_call(bx=[2], bu=[2]), _call(bx=[], bu=[2])], scale=1e8),
+]
+
+_X0, _X1 = ("V", 0), ("V", 1)
+
+
+def _nls(k, nx, nu, fs, gs, events, dtype="float64"):
+    return {"kind": "nls", "corpus": k, "seed": 9100 + k, "nx": nx, "nu": nu, "dtype": dtype, "fs": fs, "gs": gs, "events": events,
+            "slots": [{"v": 4, "shape": 0}, {"v": 9, "shape": 1}]}
+
+
+def _ncall(x, u, scalar=False, lay="c"):
+    return {"ev": "call", "x": x, "u": u, "scalar": scalar, "lay": lay}
+
+
+def _nref(x, u, t, scalar=False, lay="c"):
+    return {"ev": "ref", "x": x, "u": u, "t": t, "scalar": scalar, "lay": lay}
+
+
+def _poke(tgt, how="add_", delta=2.0, fill=1.5, j=0):
+    return {"ev": "poke", "tgt": tgt, "how": how, "delta": delta, "fill": fill, "j": j}
+
+
+_R = {"ev": "read"}
+_A2 = ("+", _X0, ("V", 2))            # shared sub-tree x0 + u (nx = 2: u is variable 2)
+NLS_CORPUS = [
+    # f = x t + u: reference time left to the default, the system is stepped, the matrices are read later (D32)
+    _nls(0, 1, 1, [("+", ("*", _X0, ("V", 2)), ("V", 1))], [_X0],
+         [_ncall([1.0], [0.0]), _nref(None, None, None), _R, _ncall([1.0], [0.0]), _ncall([2.0], [0.5], True), _R, _set("reset", None), _R, _nref(None, None, "live"), _ncall([1.0], [0.0]), _R]),
+    # f = x^2: the caller re-uses the tensors it gave to set_refpoint (the reference point is a snapshot)
+    _nls(1, 1, 1, [("+", ("P", _X0, 2), ("*", _X0, ("V", 1)))], [("*", _X0, ("V", 1))],
+         [_nref([1.0], [0.0], {"v": 0, "as": "int64"}), _R, _poke("refX"), _R, _poke("refU", "copy_"), _R, _poke("refT"), _R,
+          _ncall([0.5], [1.0]), _nref(None, None, None), _poke("lastX", "setitem", fill=-2.0), _R, _ncall([0.25], [1.0]), _poke("refX", "add_", 0.5), _R]),
+    # reads and set_refpoint before anything exists; None resolved from tensors the caller changed after the call
+    _nls(2, 2, 1, [("+", ("S", ("*", _X0, _X1)), ("V", 2)), ("*", ("K", ("V", 3)), _X1)], [("-", ("P", _X0, 3), _X1), ("P", _X0, 0), ("C", False, 3, 2)],
+         [_R, _nref(None, [0.5], None), _R, _ncall([0.5, -1.0], [2.0], lay="slice"), _poke("lastX", "add_", 0.5), _nref(None, None, None), _R, _ncall([1.0, 1.0], [0.0]), _R,
+          _nref([0.25, 3.0], None, {"v": 2.5, "as": "float64", "dim1": True}, lay="slice"), _R, _set("assign", 7), _R, {"ev": "assign", "t": {"slot": 0, "v": 4, "as": "slot"}},
+          _nref([1.0, 2.0], [3.0], {"slot": 1, "v": 9, "as": "slot"}), _ncall([0.0, 0.0], [0.0]), _R]),
+    # shared sub-trees; every autograd route; two set_refpoints in a row
+    _nls(3, 2, 1, [("*", _A2, _A2), ("*", _A2, ("S", _A2))], [("~", _A2)],
+         [_nref([0.5, 1.0], [0.25], {"v": 3, "as": "int32"}), _R, {"ev": "jacargs", "v": [True, "forward-mode"]}, _R, {"ev": "jacargs", "v": [False, "reverse-mode"]}, _R,
+          _nref([1.5, 1.0], [0.25], {"v": 3, "as": "int64"}), _nref([-1.0, 2.0], [0.5], {"v": 1, "as": "int64"}), _R, {"ev": "jacargs", "v": [True, "reverse-mode"]}, _R]),
+    # outputs that do not depend on state or input at all
+    _nls(4, 1, 1, [("*", ("V", 2), ("V", 2))], [("C", False, 3, 2)],
+         [_ncall([1.0], [2.0], True), _nref(None, None, "live"), _R, _ncall([3.0], [1.0]), _R, {"ev": "twin", "op": "from_main"}, {"ev": "twin", "op": "call"}, {"ev": "twin", "op": "to_main"}, _R]),
+]
+NLS_CORPUS.append(dict(NLS_CORPUS[2], corpus=5, seed=9105, dtype="float32"))
+
+
+def _bmv(k, fn, n, m, full, b1, b2, b3=(), **kw):
+    c = {"kind": "bmv", "corpus": k, "seed": 9200 + k, "fn": fn, "full": list(full), "n": n, "m": m, "dtype": "float64", "b1": list(b1), "b2": list(b2), "b3": list(b3),
+         "same": False, "scale": 3.0, "regimes": False, "layout": ["c", "c", "c"], "lie": False, "out": False, "dyadic": True, "dseed": 700 + k}
+    c.update(kw)
+    return c
+
+
+BMV_CORPUS = [
+    _bmv(0, "bmv", 1, 1, [], [], []),
+    _bmv(1, "bmv", 3, 3, [2, 3], [2, 3], [3], layout=["T", "slice", "c"]),            # square, batched, transposed storage
+    _bmv(2, "bmv", 2, 3, [2, 1], [2, 1], [1], out=True),
+    _bmv(3, "bmv", 4, 3, [2], [2], [2], lie=True),
+    _bmv(4, "bvv", 3, 3, [2], [2], [2], same=True),                                    # the same tensor twice
+    _bmv(5, "bvv", 2, 4, [3, 1, 2], [3, 1, 1], [2], layout=["slice", "expand", "c"]),
+    _bmv(6, "bvmv", 3, 3, [2], [2], [2], [2], same=True, dyadic=False),                # non-symmetric M, l is r
+    _bmv(7, "bvmv", 2, 3, [2, 1], [1], [2, 1], [1]),
+    _bmv(8, "bvmv", 4, 4, [], [], [], []),
+    _bmv(9, "bmv", 3, 2, [3], [3], [3], dtype="float32", regimes=True),
+    _bmv(10, "bmv", 2, 2, [2], [2], [], scale=1e40, dyadic=False),
+    _bmv(11, "bvv", 7, 7, [2], [2], [2], layout=["expand", "expand", "c"]),
+]
+CORPORA = {"multi": CORPUS, "lin": LIN_CORPUS, "nls": NLS_CORPUS, "bmv": BMV_CORPUS}
+
+
 # ============================================================================= driver
 
 GEN = {"clock": gen_clock_case, "multi": gen_multi_case, "lin": gen_lin_case, "nls": gen_nls_case, "bmv": gen_bmv_case}
@@ -1873,7 +2232,11 @@ def run(ctx: Ctx):
     torch.set_num_threads(2)
     q = ctx.quick
     seeds = lambda n: [rng.randrange(1 << 40) for _ in range(n)]
-    run_multi(ctx, [dict(c) for c in CORPUS])                       # deterministic corpus first
+    # deterministic corner corpora first: detection of the scenario classes never depends on the seed
+    run_multi(ctx, [dict(c) for c in CORPUS])
+    run_lin(ctx, [dict(c) for c in LIN_CORPUS])
+    run_bmv(ctx, [dict(c) for c in BMV_CORPUS])
+    run_nls(ctx, [dict(c) for c in NLS_CORPUS], 10 ** 6)
     run_clock(ctx, [gen_clock_case(s, q) for s in seeds(ctx.pick(600, 8000))])
     run_multi(ctx, [gen_multi_case(s, q) for s in seeds(ctx.pick(400, 6000))])
     run_lin(ctx, [gen_lin_case(s, q) for s in seeds(ctx.pick(700, 12000))])
@@ -1889,6 +2252,10 @@ def search(ctx: Ctx):
         n0 = len(ctx.failures)
         run_clock(ctx, [gen_clock_case(rng.randrange(1 << 40), False) for _ in range(60)])
         run_multi(ctx, [dict(c) for c in CORPUS] + [gen_multi_case(rng.randrange(1 << 40), False) for _ in range(80)])
+        if rnd == 0:
+            run_lin(ctx, [dict(c) for c in LIN_CORPUS])
+            run_bmv(ctx, [dict(c) for c in BMV_CORPUS])
+            run_nls(ctx, [dict(c) for c in NLS_CORPUS], 10 ** 6)
         run_lin(ctx, [gen_lin_case(rng.randrange(1 << 40), False) for _ in range(100)])
         run_bmv(ctx, [gen_bmv_case(rng.randrange(1 << 40), False) for _ in range(80)])
         run_nls(ctx, [gen_nls_case(rng.randrange(1 << 40), False) for _ in range(80)], 200)
@@ -1900,7 +2267,7 @@ def replay(ctx: Ctx, case) -> bool:
     c = case["case"]
     kind = c.get("kind")
     n0, d0, k0 = len(ctx.failures), len(ctx.disagreements), len(ctx.known_hits)
-    full = dict(CORPUS[c["corpus"]]) if "corpus" in c else GEN[kind](c["seed"], True)     # cases are functions of their sub-seed
+    full = dict(CORPORA[kind][c["corpus"]]) if "corpus" in c else GEN[kind](c["seed"], True)     # cases are functions of their sub-seed
     if kind == "clock":
         run_clock(ctx, [full])
     elif kind == "multi":
